@@ -100,6 +100,34 @@ func runC17(c *Ctx) {
 				}
 				n++
 				sites = append(sites, in)
+				// the arm is there in every round: a channel variable that is
+				// nil on some path switches the arm off, and with it the only
+				// way the rescan learns that its subscription was closed
+				for _, st := range sel.States {
+					if st.Dir != types.RecvOnly || !loadsField(notif)(st.Chan) {
+						continue
+					}
+					var hasNil func(v ssa.Value, d int) bool
+					hasNil = func(v ssa.Value, d int) bool {
+						if d > 3 {
+							return false
+						}
+						if ir.IsNil(v) {
+							return true
+						}
+						if ph, isPhi := ir.Strip(v).(*ssa.Phi); isPhi {
+							for _, e := range ph.Edges {
+								if hasNil(e, d+1) {
+									return true
+								}
+							}
+						}
+						return false
+					}
+					if hasNil(st.Chan, 0) {
+						bad = append(bad, c.nm(fn)+": the select at "+c.at(in)+" receives from a variable that is nil on some path instead of Subscription.Notifications: in those rounds the rescan does not see its subscription being closed")
+					}
+				}
 				tested := 0
 				for _, r := range ir.Refs(sel) {
 					ex, isEx := r.(*ssa.Extract)
